@@ -334,6 +334,14 @@ fn part_d(rep: &Report) {
     }
 }
 
+/// The sender-model histories through one real atom cache (parts b, c and d), for engines of neighbouring properties
+/// whose statements also cover terms that arrive under a distribution header.
+pub fn sender_histories(rep: &Report) {
+    let _ = part_b(rep);
+    part_c(rep);
+    part_d(rep);
+}
+
 pub fn run(rep: &Report) -> serde_json::Value {
     part_a(rep);
     part_c(rep);
